@@ -526,7 +526,14 @@ func init() {
 		pkg := fr.i.prog.ImportedPackage("time")
 		tt := pkg.Type("Timer").Object().Type()
 		var cell value = zero(tt)
-		cell.(structure)[structField(tt, "C")] = &channel{never: true, capacity: 1}
+		ch := &channel{never: true, capacity: 1, elem: pkg.Type("Time").Object().Type()}
+		// a finite duration (below 100 h) with timers enabled: the timer may fire (forked at the select)
+		if fr.i.w.ex.cfg.TimersMayFire {
+			if d, ok := a[0].(int64); ok && d < int64(100*3600)*1000000000 {
+				ch.mayFire = true
+			}
+		}
+		cell.(structure)[structField(tt, "C")] = ch
 		return &cell
 	}
 	// strconv on a symbolic integer: the argument is concretised (forked over its feasible
